@@ -56,6 +56,19 @@ pub fn now_ms() -> u64 {
 pub struct Cur {
     ptr: *mut u8,
 }
+
+static HEARTBEAT_PTR: std::sync::atomic::AtomicPtr<u8> = std::sync::atomic::AtomicPtr::new(std::ptr::null_mut());
+
+/// refresh the in-flight case's timestamp (long shrink / reduce loops call this so that the
+/// watchdog only fires on a single judge call that does not return)
+pub fn heartbeat() {
+    let p = HEARTBEAT_PTR.load(std::sync::atomic::Ordering::Relaxed);
+    if !p.is_null() {
+        unsafe {
+            std::ptr::write_volatile(p.add(24) as *mut u64, now_ms());
+        }
+    }
+}
 unsafe impl Send for Cur {}
 
 impl Cur {
@@ -80,6 +93,7 @@ impl Cur {
             )
         };
         assert!(ptr != libc::MAP_FAILED, "mmap failed");
+        HEARTBEAT_PTR.store(ptr as *mut u8, std::sync::atomic::Ordering::Relaxed);
         Cur { ptr: ptr as *mut u8 }
     }
     /// layout: sec u32 | kind u32 (0 idle,1 index,2 bytes) | k u64 | idx u64 | ms u64 | len u32 | pad u32 | data
@@ -196,6 +210,7 @@ pub fn run_one(prop: &dyn Prop, sec: &str, input: &Input, tier: Tier, st: &mut S
 }
 
 fn same_failure(prop: &dyn Prop, sec: &str, bytes: &[u8], tier: Tier, sig: &str) -> Option<Viol> {
+    heartbeat();
     let mut scratch = Stats {
         scratch: true,
         ..Default::default()
@@ -446,6 +461,9 @@ fn worker_body(prop: &'static dyn Prop, args: WorkerArgs) -> i32 {
             }
             SectionKind::Random { cases, maxlen } => {
                 let n = args.nshards as u64;
+                // development aid: VERIF_SCALE scales the number of generated cases
+                let scale: f64 = std::env::var("VERIF_SCALE").ok().and_then(|s| s.parse().ok()).unwrap_or(1.0);
+                let cases = &(((*cases as f64) * scale) as u64);
                 let mine = cases / n + if (args.shard as u64) < cases % n { 1 } else { 0 };
                 let s = mix(&[args.seed, fnv(prop.id().as_bytes()), fnv(sec.name.as_bytes()), args.shard as u64]);
                 let mut seed32 = [0u8; 32];
@@ -487,7 +505,11 @@ fn worker_body(prop: &'static dyn Prop, args: WorkerArgs) -> i32 {
                         if !seen && cx.book.shrinks_done < 8 {
                             cx.book.shrinks_done += 1;
                             let (b2, v2) = shrink(prop, sec.name, &mut tree, tier, v);
-                            cx.record(sec.name, &Input::Bytes(&b2), v2);
+                            let v3 = catch_unwind(AssertUnwindSafe(|| prop.reduce(sec.name, &Input::Bytes(&b2), tier, &v2)))
+                                .ok()
+                                .flatten()
+                                .unwrap_or(v2);
+                            cx.record(sec.name, &Input::Bytes(&b2), v3);
                         } else {
                             cx.record(sec.name, &input, v);
                         }
